@@ -70,7 +70,7 @@ namespace Givaro {
         GIV_randIter(const Ring& F,
                      const uint64_t seed = 0,
                      const Residu_t size = 0)
-        : _ring(F), _size(size?size:std::max(F.cardinality(),Residu_t(1))), _givrand(seed)
+        : _ring(F), _size(sampleSize(F,size)), _givrand(seed)
         {}
 
         /** Copy constructor.
@@ -148,6 +148,15 @@ namespace Givaro {
         //@}
 
     private:
+
+        /// Sampling size: zero, or more than the cardinality of a finite
+        /// ring, means the entire ring.
+        static Residu_t sampleSize(const Ring& F, const Residu_t size)
+        {
+            const Residu_t card(std::max(F.cardinality(),Residu_t(1)));
+            return (size && ( (F.cardinality() < Residu_t(1)) || (size < card) ))
+                ? size : card;
+        }
 
         /// Ring
         const Ring& _ring;
